@@ -384,9 +384,9 @@ func init() {
 	}
 	registerCheck("C14", "exploration", 150*time.Second, 25*time.Minute, func(r *Run) {
 		var jobs []any
-		fullKeys := []string{"ec256a"}
+		fullKeys := []string{"ec256a", "ec384"}
 		if !r.Quick() {
-			fullKeys = []string{"ec256a", "ec384", "rsa1/RS512"}
+			fullKeys = c14Keys
 		}
 		for _, f := range c14Flows {
 			for _, k := range fullKeys {
